@@ -516,6 +516,52 @@ def rule_D(run, prog, routines):
                        message="rotating frame and initial state: %s (the conversions use %s times)"
                                % (why, "absolute" if absolute else "relative"), loc=pf.loc(),
                        sample={"conversion_times": "absolute" if absolute else "relative to the start of the axis"})
+    # the frame flag: every evolution class that converts from the rotating frame defines the flag when it is created
+    # (a propagation without RWA never sets it), and an evolution derived from another one is in the same frame
+    EVOLS = ("DensityMatrixEvolution", "ReducedDensityMatrixEvolution", "StateVectorEvolution")
+    nflag = 0
+    for c_ in sorted(prog.all_classes(), key=lambda c: c.qualname):
+        if c_.name not in EVOLS or ".tests." in c_.qualname:
+            continue
+        conv = prog.find_method(c_, "convert_from_RWA")
+        if conv is None:
+            continue
+        init = prog.find_method(c_, "__init__")
+        defined = any("is_in_rwa" in b_.attrs for b_ in prog.mro(c_) if b_ is not None)
+        if init is not None and not defined:
+            # assigned on the main path of the constructor (not only under a condition)
+            defined = any(isinstance(n_, ast.Assign) and any(norm(t_) == "self.is_in_rwa" for t_ in n_.targets)
+                          for n_ in init.node.body)
+            if not defined:
+                # or by a base constructor that is always called
+                for n_ in ast.walk(init.node):
+                    if isinstance(n_, ast.Call) and isinstance(n_.func, ast.Attribute) and n_.func.attr == "__init__":
+                        b_ = prog.find_method(c_, "__init__", after=init.cls)
+                        if b_ is not None and any(isinstance(m_, ast.Assign) and any(norm(t_) == "self.is_in_rwa" for t_ in m_.targets)
+                                                  for m_ in b_.node.body):
+                            defined = True
+        nflag += 1
+        run.obligation(rid, c_.name, defined, key="frame-flag-defined",
+                       message="%s.convert_from_RWA reads self.is_in_rwa, which the constructor does not define: the "
+                               "conversion raises AttributeError on the result of a propagation without rotating-wave "
+                               "approximation" % c_.name, loc="%s:%d" % (c_.module.relpath, c_.node.lineno))
+        for fn_ in c_.methods.values():
+            for n_ in walk_no_nested(fn_.node):
+                if isinstance(n_, ast.Assign) and isinstance(n_.value, ast.Call) and call_name(n_.value) in EVOLS \
+                        and isinstance(n_.targets[0], ast.Name):
+                    var = n_.targets[0].id
+                    kw = [k for k in n_.value.keywords if k.arg == "is_in_rwa"]
+                    carried = any(norm(k.value) == "self.is_in_rwa" for k in kw) or any(
+                        isinstance(m_, ast.Assign) and norm(m_.targets[0]) == var + ".is_in_rwa"
+                        and norm(m_.value) == "self.is_in_rwa" for m_ in walk_no_nested(fn_.node))
+                    nflag += 1
+                    run.obligation(rid, fn_.short, carried, key="frame-flag-carried:" + call_name(n_.value),
+                                   message="%s builds a %s from the values of this evolution but does not hand on the frame "
+                                           "they are in: derived from a rotating-frame result it is marked as laboratory "
+                                           "frame and convert_from_RWA() does nothing" % (fn_.short, call_name(n_.value)),
+                                   loc=fn_.loc(n_))
+    if nflag < 4:
+        raise AnalysisError("frame-flag rule: only %d instances" % nflag)
     # inverse: sgn -> -sgn gives the inverse phases (u(sgn) * u(-sgn) = 1): structural
     ut = [n for n in ast.walk(lp) if isinstance(n, ast.Assign) and norm(n.targets[0]) == "Ut"]
     ok = len(ut) == 1 and norm(ut[0].value) == "numpy.diag(numpy.exp(-sgn * 1j * HOmega * t))"
